@@ -6,6 +6,8 @@ import (
 	"sort"
 	"strconv"
 	"strings"
+	"unicode"
+	"unicode/utf8"
 
 	cd "github.com/go-kid/ioc/component_definition"
 	"github.com/go-kid/ioc/container/processors"
@@ -241,7 +243,10 @@ func c19Ref(tag string) (value string, args map[string][]string, required bool) 
 		if name == "" {
 			continue
 		}
-		name = strings.ToUpper(name[:1]) + name[1:]
+		// only the case of the first letter (a whole rune) is immaterial
+		if r, size := utf8.DecodeRuneInString(name); r != utf8.RuneError {
+			name = string(unicode.ToUpper(r)) + name[size:]
+		}
 		args[name] = vals // a later duplicate wins
 	}
 	required = true
@@ -294,6 +299,24 @@ func c19Faithful(c *core.Ctx) {
 		for _, value := range []string{"", "v", "[x,y]", "a b"} {
 			if !rec(value, nil) {
 				return
+			}
+		}
+		// argument names with inner word boundaries, inner capitals and non-ASCII letters: only the
+		// first letter is case-insensitive
+		var exotic []c19Arg
+		for _, n := range []string{"max-size", "Max-size", "max-Size", "a.b", "a.B", "a/b", "x y", "é", "éa", "Éa", "_x", "9x", " x", "x ", " required"} {
+			exotic = append(exotic, c19Arg{Name: n, Bare: true}, c19Arg{Name: n, Vals: []string{"v"}}, c19Arg{Name: n, Vals: []string{"false"}})
+		}
+		for _, value := range []string{"", "v"} {
+			for _, a := range exotic {
+				if !yield(c19FCase{value, []c19Arg{a}}) {
+					return
+				}
+				for _, b := range exotic {
+					if !yield(c19FCase{value, []c19Arg{a, b}}) {
+						return
+					}
+				}
 			}
 		}
 	}
